@@ -70,12 +70,19 @@ Prog(tops, body) == Lines(tops \o <<"start :: fn do">> \o Ind(body) \o <<"end">>
 File(nm, text) == [name |-> nm, text |-> text]
 Main(text) == <<File("main.sy", text)>>
 
-MkCase(fam, a, b, n, files, req, must) ==
-    [id |-> [fam |-> fam, a |-> a, b |-> b, n |-> n], files |-> files, req |-> req, must |-> must]
+\* expect: the bytes the program must print when its chunk is RUN (placeholder form), "-" = the chunk is only loaded
+MkCaseE(fam, a, b, n, files, req, must, expect) ==
+    [id |-> [fam |-> fam, a |-> a, b |-> b, n |-> n], files |-> files, req |-> req, must |-> must, expect |-> expect]
+MkCase(fam, a, b, n, files, req, must) == MkCaseE(fam, a, b, n, files, req, must, "-")
 
 \* the grid A x B in row-major order
 Grid(A, B, F(_, _)) ==
     [i \in 1..(Len(A) * Len(B)) |-> F(A[((i - 1) \div Len(B)) + 1], B[((i - 1) % Len(B)) + 1])]
+\* ... and its i-th element alone.  The universe is addressed by index and a case is DERIVED WHEN ASKED FOR: TLC evaluates
+\* every constant definition without parameters when it starts, so a definition `Cases == <all texts>` would be paid by
+\* every validation run, however small its trace.  Only small descriptors (cells of names) are kept as sequences.
+GridN(A, B) == Len(A) * Len(B)
+GridAt(A, B, F(_, _), i) == F(A[((i - 1) \div Len(B)) + 1], B[((i - 1) % Len(B)) + 1])
 
 ---------------------------------------------------------------------------
 (* Keywords.  Lua 5.3 reference manual, section 3.1; Sylt: every #[token]  *)
@@ -182,7 +189,6 @@ NameFiles(site, nm) ==
     [] OTHER -> Main(NameText(site, nm))
 
 NameCase(sp, site) == MkCase("name", sp.cls, site, 0, NameFiles(site, sp.nm), "", TRUE)
-NameCases == Grid(LowerSpell, LowerSites, NameCase)
 
 (* capitalised spellings: variants, blob names, enum names *)
 UpperSpell == <<[cls |-> "plain", nm |-> "Alpha"],
@@ -210,7 +216,6 @@ CNameText(site, nm) ==
          Prog(<<nm \o " :: blob { x: int }", "f :: fn a: " \o nm \o " -> int do", "    a.x", "end">>,
               <<"print(f(" \o nm \o " { x: 1 }))">>)
 CNameCase(sp, site) == MkCase("cname", sp.cls, site, 0, Main(CNameText(site, sp.nm)), "", TRUE)
-CNameCases == Grid(UpperSpell, UpperSites, CNameCase)
 
 ---------------------------------------------------------------------------
 (* String contents: the Sylt tokenizer takes everything between two double *)
@@ -284,7 +289,6 @@ StrText(site, s) ==
     [] site = "require-arg" -> Prog(<<>>, <<"print(1)">>)
 StrCase(c, site) ==
     MkCase("str", c.cls, site, 0, Main(StrText(site, c.s)), IF site = "require-arg" THEN "lib" \o c.s \o ".lua" ELSE "", TRUE)
-StrCases == Grid(StrContents, StrSites, StrCase)
 
 ---------------------------------------------------------------------------
 (* Numeric literals: the tokenizer's forms  X  X.  .Y  X.Y  XeY  Xe-Y  Xe+Y *)
@@ -325,7 +329,6 @@ NumText(site, s) ==
     [] site = "list-elem" -> Prog(<<>>, <<"print([" \o s \o ", " \o s \o "])">>)
     [] site = "two-args" -> Prog(<<"f :: fn a, b do", "    print(a)", "    print(b)", "end">>, <<"f(" \o s \o ", " \o s \o ")">>)
 NumCase(c, site) == MkCase("num", c.cls, site, 0, Main(NumText(site, c.s)), "", c.must)
-NumCases == Grid(NumLits, NumSites, NumCase)
 
 ---------------------------------------------------------------------------
 (* Every expression form as a statement whose value is not used.           *)
@@ -416,7 +419,6 @@ UText(pos, ls) ==
          Prog(UTops, UEnv \o <<"case e do", "    X w ->">> \o Ind(Ind(ls \o <<"print(w)">>)) \o <<"    end", "    else end", "end">>)
     [] pos = "before-ret" -> Prog(UTops, UEnv \o ls \o <<"ret">>)
 UCase(c, pos) == MkCase("unused", c.cls, pos, 0, Main(UText(pos, c.ls)), "", TRUE)
-UCases == Grid(UForms, UPositions, UCase)
 
 (* thorough tier: every ordered PAIR of single-line forms as the two components of a tuple whose value is  *)
 (* not used - the product of operand shapes under the emitter's single-use inlining.                      *)
@@ -424,7 +426,6 @@ IsOperandForm(c) == Len(c.ls) = 1 /\ c.cls \notin {"assert", "assert-and"}
 UOperands == SelectSeq(UForms, IsOperandForm)
 U2Case(c1, c2) == MkCase("unused2", c1.cls, c2.cls, 0,
                          Main(Prog(UTops, UEnv \o <<"((" \o c1.ls[1] \o "), (" \o c2.ls[1] \o "))", "print(7)">>)), "", TRUE)
-U2Cases == Grid(UOperands, UOperands, U2Case)
 
 ---------------------------------------------------------------------------
 (* Sizes.  N statements / declarations / levels of one shape.              *)
@@ -528,9 +529,9 @@ SizeGrid == <<[shape |-> "locals", ns |-> StdSizes], [shape |-> "consts", ns |->
               [shape |-> "closures", ns |-> StdSizes],
               [shape |-> "upvalues", ns |-> <<100, 200, 260, 300>>],
               [shape |-> "string-length", ns |-> <<10, 1000>>]>>
-SizeCasesOf(g) == [i \in 1..Len(g.ns) |-> MkCase("size", g.shape, "n" \o Num(g.ns[i]), g.ns[i],
-                                                Main(SizeText(g.shape, g.ns[i])), "", TRUE)]
-SizeCases == Flat([i \in 1..Len(SizeGrid) |-> SizeCasesOf(SizeGrid[i])])
+SizeCellsOf(g) == [i \in 1..Len(g.ns) |-> <<g.shape, g.ns[i]>>]
+SizeCells == Flat([i \in 1..Len(SizeGrid) |-> SizeCellsOf(SizeGrid[i])])
+SizeCase(q) == MkCase("size", q[1], "n" \o Num(q[2]), q[2], Main(SizeText(q[1], q[2])), "", TRUE)
 ---------------------------------------------------------------------------
 (* Control transfers: `break`, `continue`, `ret`, `<!>` x where they are   *)
 (* written (enclosing construct, and whether another statement follows in  *)
@@ -566,7 +567,7 @@ CtlCase(c, pos) == MkCase("ctl", c.cls, pos, 0,
                           Main(IF pos = "start" THEN Prog(CtlTops, <<"x := 0">> \o c.ls \o <<"print(x)">>)
                                ELSE Prog(CtlTops \o <<"w :: fn do">> \o Ind(<<"x := 0">> \o c.ls \o <<"print(x)">>) \o <<"end">>, <<"w()">>)),
                           "", c.must)
-CtlCases == Grid(CtlKinds, <<"start", "helper">>, CtlCase)
+CtlPositions == <<"start", "helper">>
 
 ---------------------------------------------------------------------------
 (* Control transfers x FUNCTION FLAVOUR x enclosing construct (family ctlfn): a loop around a function literal is   *)
@@ -600,18 +601,18 @@ CfConstructs == <<"none", "loop-do", "loop-nodo", "nested-loops", "if-in-loop", 
                   "case-else-in-loop", "loop-in-if">>
 LoopConstructs == {"loop-do", "loop-nodo", "nested-loops", "if-in-loop", "else-in-loop", "case-arm-in-loop",
                    "case-else-in-loop", "loop-in-if"}
-CfConstruct(c, st) ==
-  CASE c = "none" -> st
-    [] c = "loop-do" -> <<"loop true do">> \o Ind(st \o <<"break">>) \o <<"end">>
-    [] c = "loop-nodo" -> <<"loop true " \o st[1]>> \o Tail(st)         \* one statement, no `do`
-    [] c = "nested-loops" -> <<"loop true do", "    loop true do">> \o Ind(Ind(st \o <<"break">>)) \o <<"    end", "    break", "end">>
-    [] c = "if-in-loop" -> <<"loop true do", "    if b do">> \o Ind(Ind(st)) \o <<"    end", "    break", "end">>
-    [] c = "else-in-loop" -> <<"loop true do", "    if b do", "        c0 :: 0", "    else">> \o Ind(Ind(st)) \o <<"    end", "    break", "end">>
-    [] c = "case-arm-in-loop" -> <<"loop true do", "    case e do", "        X v ->">> \o Ind(Ind(Ind(st)))
+CfConstruct(c, stm) ==
+  CASE c = "none" -> stm
+    [] c = "loop-do" -> <<"loop true do">> \o Ind(stm \o <<"break">>) \o <<"end">>
+    [] c = "loop-nodo" -> <<"loop true " \o stm[1]>> \o Tail(stm)         \* one statement, no `do`
+    [] c = "nested-loops" -> <<"loop true do", "    loop true do">> \o Ind(Ind(stm \o <<"break">>)) \o <<"    end", "    break", "end">>
+    [] c = "if-in-loop" -> <<"loop true do", "    if b do">> \o Ind(Ind(stm)) \o <<"    end", "    break", "end">>
+    [] c = "else-in-loop" -> <<"loop true do", "    if b do", "        c0 :: 0", "    else">> \o Ind(Ind(stm)) \o <<"    end", "    break", "end">>
+    [] c = "case-arm-in-loop" -> <<"loop true do", "    case e do", "        X v ->">> \o Ind(Ind(Ind(stm)))
                                  \o <<"        end", "        else end", "    end", "    break", "end">>
-    [] c = "case-else-in-loop" -> <<"loop true do", "    case e do", "        X v ->", "            c1 :: v", "        end", "        else">> \o Ind(Ind(Ind(st)))
+    [] c = "case-else-in-loop" -> <<"loop true do", "    case e do", "        X v ->", "            c1 :: v", "        end", "        else">> \o Ind(Ind(Ind(stm)))
                                   \o <<"        end", "    end", "    break", "end">>
-    [] c = "loop-in-if" -> <<"if b do", "    loop true do">> \o Ind(Ind(st \o <<"break">>)) \o <<"    end", "end">>
+    [] c = "loop-in-if" -> <<"if b do", "    loop true do">> \o Ind(Ind(stm \o <<"break">>)) \o <<"    end", "end">>
 CfContexts == <<"fn", "pu">>       \* the construct is written in start (impure) / in a pure helper function
 CfEnv == <<"b :: true", "e :: E.X 1">>
 CfText(t, f, w, c) ==
@@ -628,7 +629,6 @@ CfMust(t, f, w, c) ==
 CfCase(q) == LET t == q[1][1]  f == q[1][2]  w == q[2][1]  c == q[2][2] IN
              MkCase("ctlfn", t \o "/" \o f, w \o "/" \o c, 0, Main(CfText(t, f, w, c)), "", CfMust(t, f, w, c))
 CfCells == SelectSeq(Grid(Grid(CfTransfers, CfFlavours, Pair), Grid(CfContexts, CfConstructs, Pair), Pair), CfApplicable)
-CfCases == Map(CfCells, CfCase)
 
 ---------------------------------------------------------------------------
 (* DEAD CODE (family dead): a transfer that is NOT the last statement of its block, followed by every kind of      *)
@@ -645,31 +645,31 @@ DeadKinds == <<"print", "value", "const-def", "fn-def", "fn-def-int", "fn-def-ne
 FnDefLines == <<"g :: fn do", "    print(1)", "end", "g()">>
 IfElseLines == <<"if b do", "    print(1)", "else", "    print(2)", "end">>
 LoopLines == <<"loop true do", "    break", "end">>
-DeadFollow(k, d) ==
-  CASE k = "print" -> <<"print(1)">>
-    [] k = "value" -> <<"2">>
-    [] k = "const-def" -> <<"c :: 5", "print(c)">>
-    [] k = "fn-def" -> FnDefLines
-    [] k = "fn-def-int" -> <<"g :: fn -> int do", "    1", "end", "print(g())">>
-    [] k = "fn-def-nested" -> <<"g :: fn do", "    q :: fn do", "        print(1)", "    end", "    q()", "end", "g()">>
-    [] k = "fn-def-if-loop" -> <<"g :: fn do", "    if b do", "        loop true do", "            break", "        end", "    end", "end", "g()">>
-    [] k = "pu-def" -> <<"g :: pu -> int do", "    1", "end", "print(g())">>
-    [] k = "lambda-arg" -> <<"h(fn do", "    print(1)", "end)">>
-    [] k = "iife" -> <<"(fn do", "    print(1)", "end)()">>
-    [] k = "blob-methods" -> <<"a2 :: A { m: fn do", "    print(1)", "end }", "a2.m()">>
-    [] k = "do-block" -> <<"do", "    print(1)", "end">>
-    [] k = "if" -> <<"if b do", "    print(1)", "end">>
-    [] k = "if-else" -> IfElseLines
-    [] k = "if-elif-else" -> <<"if b do", "    print(1)", "elif b do", "    print(2)", "else", "    print(3)", "end">>
-    [] k = "if-expr" -> <<"y :: if b do 1 else 2 end", "print(y)">>
-    [] k = "case" -> <<"case e do", "    X v -> print(v) end", "    else print(0) end", "end">>
-    [] k = "case-expr" -> <<"y :: case e do", "    X v -> v end", "    else 0 end", "end", "print(y)">>
-    [] k = "loop" -> LoopLines
-    [] k = "loop-continue" -> <<"z := 0", "loop z < 2 do", "    z += 1", "    continue", "end">>
-    [] k = "and" -> <<"b and b", "print(1)">>
-    [] k = "ret-again" -> <<IF d.int THEN "ret 2" ELSE "ret">>
-    [] k = "unreachable" -> <<"<!>">>
-    [] k = "several" -> FnDefLines \o IfElseLines \o LoopLines \o <<"print(4)">>
+DeadFollow(kk, d) ==
+  CASE kk = "print" -> <<"print(1)">>
+    [] kk = "value" -> <<"2">>
+    [] kk = "const-def" -> <<"c :: 5", "print(c)">>
+    [] kk = "fn-def" -> FnDefLines
+    [] kk = "fn-def-int" -> <<"g :: fn -> int do", "    1", "end", "print(g())">>
+    [] kk = "fn-def-nested" -> <<"g :: fn do", "    q :: fn do", "        print(1)", "    end", "    q()", "end", "g()">>
+    [] kk = "fn-def-if-loop" -> <<"g :: fn do", "    if b do", "        loop true do", "            break", "        end", "    end", "end", "g()">>
+    [] kk = "pu-def" -> <<"g :: pu -> int do", "    1", "end", "print(g())">>
+    [] kk = "lambda-arg" -> <<"h(fn do", "    print(1)", "end)">>
+    [] kk = "iife" -> <<"(fn do", "    print(1)", "end)()">>
+    [] kk = "blob-methods" -> <<"a2 :: A { m: fn do", "    print(1)", "end }", "a2.m()">>
+    [] kk = "do-block" -> <<"do", "    print(1)", "end">>
+    [] kk = "if" -> <<"if b do", "    print(1)", "end">>
+    [] kk = "if-else" -> IfElseLines
+    [] kk = "if-elif-else" -> <<"if b do", "    print(1)", "elif b do", "    print(2)", "else", "    print(3)", "end">>
+    [] kk = "if-expr" -> <<"y :: if b do 1 else 2 end", "print(y)">>
+    [] kk = "case" -> <<"case e do", "    X v -> print(v) end", "    else print(0) end", "end">>
+    [] kk = "case-expr" -> <<"y :: case e do", "    X v -> v end", "    else 0 end", "end", "print(y)">>
+    [] kk = "loop" -> LoopLines
+    [] kk = "loop-continue" -> <<"z := 0", "loop z < 2 do", "    z += 1", "    continue", "end">>
+    [] kk = "and" -> <<"b and b", "print(1)">>
+    [] kk = "ret-again" -> <<IF d.int THEN "ret 2" ELSE "ret">>
+    [] kk = "unreachable" -> <<"<!>">>
+    [] kk = "several" -> FnDefLines \o IfElseLines \o LoopLines \o <<"print(4)">>
 DeadBlocks == <<"plain", "do-block", "if", "else", "both", "elif", "case-arm", "case-else", "case-all", "loop", "if-in-loop">>
 DeadBlock(bk, seq) ==
   CASE bk = "plain" -> seq
@@ -687,8 +687,8 @@ DeadBlock(bk, seq) ==
 DeadWraps == <<"top", "closure", "method", "lambda", "iife">>
 DeadTops == <<"A :: blob { m: fn -> void }", "AI :: blob { m: fn -> int }", "E :: enum", "    X int,", "    Y,", "end",
               "h :: fn c: fn -> void do", "    c()", "end", "hi :: fn c: fn -> int do", "    print(c())", "end">>
-DeadText(d, k, w, bk) ==
-    LET seq == <<d.line>> \o DeadFollow(k, d)
+DeadText(d, kk, w, bk) ==
+    LET seq == <<d.line>> \o DeadFollow(kk, d)
         blk == DeadBlock(bk, seq)
         inloop == IF d.loop /\ bk \notin {"loop", "if-in-loop"} THEN <<"loop true do">> \o Ind(blk \o <<"break">>) \o <<"end">> ELSE blk
         body == CfEnv \o inloop \o <<IF d.int THEN "3" ELSE "print(9)">>
@@ -702,19 +702,256 @@ DeadText(d, k, w, bk) ==
 \* quick tier: the full grid transfer x follower x block in a top-level function, and transfer x follower in every other
 \* kind of function body at the plain position; the thorough tier takes the whole four-way product
 DeadInQuick(q) == q[2][1] = "top" \/ q[2][2] = "plain"
-DeadCase(q) == LET d == q[1][1]  k == q[1][2]  w == q[2][1]  bk == q[2][2] IN
-               MkCase("dead", d.cls \o "/" \o k, w \o "/" \o bk, 0, Main(DeadText(d, k, w, bk)), "", TRUE)
+DeadCase(q) == LET d == q[1][1]  kk == q[1][2]  w == q[2][1]  bk == q[2][2] IN
+               MkCase("dead", d.cls \o "/" \o kk, w \o "/" \o bk, 0, Main(DeadText(d, kk, w, bk)), "", TRUE)
 DeadAllCells == Grid(Grid(DeadTransfers, DeadKinds, Pair), Grid(DeadWraps, DeadBlocks, Pair), Pair)
 DeadNotInQuick(q) == ~DeadInQuick(q)
-DeadCases == Map(SelectSeq(DeadAllCells, DeadInQuick), DeadCase)
-DeadRestCases == Map(SelectSeq(DeadAllCells, DeadNotInQuick), DeadCase)
+DeadCells == SelectSeq(DeadAllCells, DeadInQuick)
+DeadRestCells == SelectSeq(DeadAllCells, DeadNotInQuick)
 
 ---------------------------------------------------------------------------
-BaseCases == NameCases \o CNameCases \o StrCases \o NumCases \o UCases \o SizeCases \o CtlCases \o CfCases
-\* the quick universe is a PREFIX of the thorough one: an index means the same case in both tiers
-Cases == IF Thorough THEN BaseCases \o DeadCases \o DeadRestCases \o U2Cases ELSE BaseCases \o DeadCases
-NCases == Len(Cases)
-Case(i) == Cases[i]
-Families == IF Thorough THEN <<"name", "cname", "str", "num", "unused", "size", "ctl", "ctlfn", "dead", "unused2">>
-            ELSE <<"name", "cname", "str", "num", "unused", "size", "ctl", "ctlfn", "dead">>
+(* CONTROL TRANSFERS IN VALUE POSITION (family ctlx, round 3).  `if` and `case` are expressions in Sylt and their   *)
+(* branches are statement lists wherever the expression is written, so `continue`, `break` and `ret` can sit inside *)
+(* the right-hand side of a definition, an argument, an operand, a list element ...  Dimensions: transfer x form of *)
+(* the if / case expression (which branch transfers) x value site x loop context (is it the only transfer of the    *)
+(* loop, which of two nested loops owns it, loop inside a closure inside a loop) x function.                        *)
+CxTops == <<"A :: blob { v: int }", "E :: enum", "    X int,", "    Y,", "end", "h :: fn q: int -> int do", "    q", "end",
+            "h2 :: fn p: int, q: int -> int do", "    p + q", "end">>
+CxEnv == <<"x := 0", "y := 0", "b := true", "e := E.X 1", "a := A { v: 1 }">>
+CxTransfers == <<"continue", "break", "ret">>
+CxForms == <<"if-then", "if-else", "if-elif", "if-multi", "case-arm", "case-else", "nested-if", "case-in-if">>
+CxForm(f, t) ==
+  CASE f = "if-then" -> <<"if x == 3 do " \o t \o " else x * 2 end">>
+    [] f = "if-else" -> <<"if x == 3 do 1 else " \o t \o " end">>
+    [] f = "if-elif" -> <<"if x == 3 do 1 elif x == 4 do " \o t \o " else 2 end">>
+    [] f = "if-multi" -> <<"if x == 3 do", "    print(0)", "    " \o t, "elif x > 8 do", "    0", "else", "    x * 2", "end">>
+    [] f = "case-arm" -> <<"case e do", "    X v -> " \o t \o " end", "    else 2 end", "end">>
+    [] f = "case-else" -> <<"case e do", "    X v -> v end", "    else " \o t \o " end", "end">>
+    [] f = "nested-if" -> <<"if x == 3 do (if b do " \o t \o " else 1 end) else 2 end">>
+    [] f = "case-in-if" -> <<"if x == 3 do", "    case e do", "        X v -> " \o t \o " end", "        else 2 end", "    end", "else", "    2", "end">>
+\* the lines ls with pre written before the first and post after the last
+Wrap(pre, ls, post) == IF Len(ls) = 1 THEN <<pre \o ls[1] \o post>>
+                       ELSE <<pre \o ls[1]>> \o SubSeq(ls, 2, Len(ls) - 1) \o <<ls[Len(ls)] \o post>>
+CxSites == <<"def", "const", "assign", "opassign", "field-assign", "print-arg", "call-arg", "second-arg", "arrow-lhs",
+             "operand-left", "operand-right", "compare", "negate", "list-elem", "tuple-elem", "blob-field",
+             "variant-payload", "if-cond", "in-if-stmt", "in-do-block", "in-case-stmt", "stmt", "stmt-do-block">>
+CxSite(s, ls) ==
+  CASE s = "def" -> Wrap("w := ", ls, "")
+    [] s = "const" -> Wrap("w :: ", ls, "")
+    [] s = "assign" -> Wrap("y = ", ls, "")
+    [] s = "opassign" -> Wrap("y += ", ls, "")
+    [] s = "field-assign" -> Wrap("a.v = ", ls, "")
+    [] s = "print-arg" -> Wrap("print(", ls, ")")
+    [] s = "call-arg" -> Wrap("y = h(", ls, ")")
+    [] s = "second-arg" -> Wrap("y = h2(x, (", ls, "))")
+    [] s = "arrow-lhs" -> Wrap("y = (", ls, ") -> h()")
+    [] s = "operand-left" -> Wrap("y = (", ls, ") + 1")
+    [] s = "operand-right" -> Wrap("y = 1 + (", ls, ")")
+    [] s = "compare" -> Wrap("c := (", ls, ") < 2")
+    [] s = "negate" -> Wrap("y = -(", ls, ")")
+    [] s = "list-elem" -> Wrap("l := [1, (", ls, ")]")
+    [] s = "tuple-elem" -> Wrap("t := (1, (", ls, "))")
+    [] s = "blob-field" -> Wrap("a2 := A { v: ", ls, " }")
+    [] s = "variant-payload" -> Wrap("e2 := E.X (", ls, ")")
+    [] s = "if-cond" -> Wrap("if (", ls, ") == 2 do print(1) end")
+    [] s = "in-if-stmt" -> <<"if b do">> \o Ind(Wrap("w := ", ls, "")) \o <<"end">>
+    [] s = "in-do-block" -> <<"do">> \o Ind(Wrap("w := ", ls, "")) \o <<"end">>
+    [] s = "in-case-stmt" -> <<"case e do", "    X u ->">> \o Ind(Ind(Wrap("w := ", ls, ""))) \o <<"    end", "    else end", "end">>
+    [] s = "stmt" -> ls                                         \* statement position, value not used
+    [] s = "stmt-do-block" -> <<"do">> \o Ind(ls) \o <<"end">>
+CxLoops == <<"only", "and-continue-stmt", "and-break-stmt", "inner", "outer-after-inner", "outer-before-inner",
+             "in-closure-in-loop", "in-if">>
+InnerLoop == <<"z := 0", "loop z < 3 do", "    z += 1", "    if z == 2 do continue end", "end">>
+CxLoop(lp, site) ==
+  CASE lp = "only" -> <<"loop x < 5 do">> \o Ind(<<"x += 1">> \o site \o <<"y += 1">>) \o <<"end">>
+    [] lp = "and-continue-stmt" ->
+         <<"loop x < 5 do">> \o Ind(<<"x += 1", "if x == 9 do continue end">> \o site \o <<"y += 1">>) \o <<"end">>
+    [] lp = "and-break-stmt" ->
+         <<"loop x < 5 do">> \o Ind(<<"x += 1", "if x == 9 do break end">> \o site \o <<"y += 1">>) \o <<"end">>
+    [] lp = "inner" ->
+         <<"loop x < 5 do", "    x += 1", "    z := 0", "    loop z < 3 do">> \o Ind(Ind(<<"z += 1">> \o site \o <<"y += 1">>))
+         \o <<"    end", "end">>
+    [] lp = "outer-after-inner" -> <<"loop x < 5 do">> \o Ind(<<"x += 1">> \o InnerLoop \o site \o <<"y += 1">>) \o <<"end">>
+    [] lp = "outer-before-inner" -> <<"loop x < 5 do">> \o Ind(<<"x += 1">> \o site \o InnerLoop \o <<"y += 1">>) \o <<"end">>
+    [] lp = "in-closure-in-loop" ->
+         <<"loop x < 5 do", "    x += 1", "    k :: fn do", "        z := 0", "        loop z < 3 do">>
+         \o Ind(Ind(Ind(<<"z += 1">> \o site \o <<"y += 1">>))) \o <<"        end", "    end", "    k()", "end">>
+    [] lp = "in-if" -> <<"if b do", "    loop x < 5 do">> \o Ind(Ind(<<"x += 1">> \o site \o <<"y += 1">>)) \o <<"    end", "end">>
+CxContexts == <<"start", "helper">>
+CxText(t, f, s, lp, w) ==
+    LET body == CxEnv \o CxLoop(lp, CxSite(s, CxForm(f, t))) \o <<"print(y)">> IN
+    IF w = "start" THEN Prog(CxTops, body) ELSE Prog(CxTops \o <<"w :: fn do">> \o Ind(body) \o <<"end">>, <<"w()">>)
+\* quick tier: the star of the product (every site in the plain loop; every loop context for four sites; the helper
+\* function for one site); the thorough tier takes the whole product
+CxStarSites == {"def", "call-arg", "operand-right", "stmt"}
+CxInQuick(q) == LET s == q[2][1][1]  lp == q[2][1][2]  w == q[2][2] IN
+                \/ w = "start" /\ lp = "only"
+                \/ w = "start" /\ s \in CxStarSites
+                \/ s = "def"
+CxNotInQuick(q) == ~CxInQuick(q)
+CxCase(q) == LET t == q[1][1]  f == q[1][2]  s == q[2][1][1]  lp == q[2][1][2]  w == q[2][2] IN
+             MkCase("ctlx", t \o "/" \o f, s \o "/" \o lp \o "/" \o w, 0, Main(CxText(t, f, s, lp, w)), "", TRUE)
+CxAllCells == Grid(Grid(CxTransfers, CxForms, Pair), Grid(Grid(CxSites, CxLoops, Pair), CxContexts, Pair), Pair)
+CxCells == SelectSeq(CxAllCells, CxInQuick)
+CxRestCells == SelectSeq(CxAllCells, CxNotInQuick)
+
+---------------------------------------------------------------------------
+(* STRING-LITERAL CONTENT (family strc, round 3): a control character (or a non-ASCII separator) x what directly   *)
+(* FOLLOWS it in the literal x what precedes it x site of the literal.  Whatever the emitter does with such a       *)
+(* character (copy it, escape it as \ddd / \xhh / \u{..}), the neighbours must not change what Lua reads: the chunk *)
+(* loads AND - for contents without a backslash, where Sylt leaves no room for interpretation - running it prints   *)
+(* exactly the bytes of the literal (field `expect`; the recorder writes the output in placeholder form).           *)
+TAB == "\t"
+ScChars == <<[cls |-> "none", c |-> "k"],                       \* comparator: an ordinary letter
+             [cls |-> "nul", c |-> U("0000")], [cls |-> "soh", c |-> U("0001")], [cls |-> "bel", c |-> U("0007")],
+             [cls |-> "bs", c |-> U("0008")], [cls |-> "tab", c |-> TAB], [cls |-> "lf", c |-> LF],
+             [cls |-> "vt", c |-> U("000B")], [cls |-> "ff", c |-> U("000C")], [cls |-> "cr", c |-> U("000D")],
+             [cls |-> "em", c |-> U("0019")], [cls |-> "sub", c |-> U("001A")], [cls |-> "esc", c |-> U("001B")],
+             [cls |-> "us", c |-> U("001F")], [cls |-> "del", c |-> U("007F")], [cls |-> "nel", c |-> U("0085")],
+             [cls |-> "csi", c |-> U("009B")], [cls |-> "linesep", c |-> U("2028")]>>
+ScFollows == <<"end", "digit", "zero", "digits2", "digits3", "letter", "hexletter", "space", "squote", "ansi", "brace",
+               "again", "again-digit", "bs-pair", "bs-n">>
+ScFollow(f, c) ==
+  CASE f = "end" -> ""
+    [] f = "digit" -> "7"
+    [] f = "zero" -> "0"
+    [] f = "digits2" -> "99 bells"
+    [] f = "digits3" -> "1234"
+    [] f = "letter" -> "a"
+    [] f = "hexletter" -> "fA"
+    [] f = "space" -> " z"
+    [] f = "squote" -> "'"
+    [] f = "ansi" -> "[31m"
+    [] f = "brace" -> "{7}"
+    [] f = "again" -> c
+    [] f = "again-digit" -> c \o "8"
+    [] f = "bs-pair" -> BS \o BS \o "7"
+    [] f = "bs-n" -> BS \o "n7"
+ScPositions == <<"start", "after-letter", "after-digit", "after-bs-pair">>
+ScBefore(p) == CASE p = "start" -> "" [] p = "after-letter" -> "q" [] p = "after-digit" -> "2" [] p = "after-bs-pair" -> BS \o BS
+ScContent(ch, f, p) == ScBefore(p) \o ch.c \o ScFollow(f, ch.c)
+\* Sylt gives a backslash no meaning of its own (Lua reads the escape): no byte expectation for those contents
+ScHasBs(f, p) == f \in {"bs-pair", "bs-n"} \/ p = "after-bs-pair"
+ScSites == <<"print", "local", "concat", "arg", "global", "tuple-elem", "blob-field", "if-value">>
+\* every site prints the literal exactly once, then `1`: [text, out] = program text, what it prints before the 1
+ScProg(site, s) ==
+  CASE site = "print" -> [text |-> Prog(<<>>, <<"print(" \o Q(s) \o ")", "print(1)">>), out |-> s]
+    [] site = "local" -> [text |-> Prog(<<>>, <<"s := " \o Q(s), "print(s)", "print(1)">>), out |-> s]
+    [] site = "concat" -> [text |-> Prog(<<>>, <<"print(" \o Q("<") \o " + " \o Q(s) \o " + " \o Q(">") \o ")", "print(1)">>),
+                           out |-> "<" \o s \o ">"]
+    [] site = "arg" -> [text |-> Prog(<<"f :: fn a: str -> str do", "    a", "end">>, <<"print(f(" \o Q(s) \o "))", "print(1)">>), out |-> s]
+    [] site = "global" -> [text |-> Prog(<<"s :: " \o Q(s)>>, <<"print(s)", "print(1)">>), out |-> s]
+    [] site = "tuple-elem" -> [text |-> Prog(<<>>, <<"t := (1, " \o Q(s) \o ")", "print(t[1])", "print(1)">>), out |-> s]
+    [] site = "blob-field" -> [text |-> Prog(<<"A :: blob { s: str }">>, <<"a := A { s: " \o Q(s) \o " }", "print(a.s)", "print(1)">>), out |-> s]
+    [] site = "if-value" -> [text |-> Prog(<<>>, <<"b := true", "s := if b do " \o Q(s) \o " else " \o Q("x") \o " end", "print(s)", "print(1)">>),
+                             out |-> s]
+ScExpect(site, ch, f, p) == IF ScHasBs(f, p) THEN "-" ELSE ScProg(site, ScContent(ch, f, p)).out \o LF \o "1" \o LF
+ScInQuick(q) == q[2][2] = "print" \/ (q[2][1] = "start" /\ q[2][2] \in {"local", "concat", "arg"})
+ScNotInQuick(q) == ~ScInQuick(q)
+ScCase(q) == LET ch == q[1][1]  f == q[1][2]  p == q[2][1]  site == q[2][2] IN
+             MkCaseE("strc", ch.cls \o "/" \o f, p \o "/" \o site, 0, Main(ScProg(site, ScContent(ch, f, p)).text), "", TRUE,
+                     ScExpect(site, ch, f, p))
+ScAllCells == Grid(Grid(ScChars, ScFollows, Pair), Grid(ScPositions, ScSites, Pair), Pair)
+ScCells == SelectSeq(ScAllCells, ScInQuick)
+ScRestCells == SelectSeq(ScAllCells, ScNotInQuick)
+
+---------------------------------------------------------------------------
+(* WIDE CONSTRUCTS (family wide, round 3): N comma-separated items in one construct - arguments of every kind of   *)
+(* call, elements of list / tuple / set / dict / blob literals, parameters of a function literal - for widths on    *)
+(* both sides of anything a pretty-printer or a line-wrapping emitter might treat differently.                      *)
+WideNs == <<1, 2, 3, 8, 12, 13, 16, 25, 40, 80>>
+Seq1(n, F(_)) == Join([i \in 1..n |-> F(i)], ", ")
+PInt(i) == "p" \o Num(i) \o ": int"
+PStr(i) == "p" \o Num(i) \o ": str"
+TInt(i) == "int"
+ArgVar(i) == "x"
+ArgCall(i) == "h(" \o Num(i) \o ")"
+ArgStr(i) == Q("a" \o Num(i))
+ArgList(i) == "[" \o Num(i) \o "]"
+ArgPair(i) == "(" \o Num(i) \o ", " \o Num(i) \o ")"
+ArgField(i) == "f" \o Num(i) \o ": " \o Num(i)
+ArgIf(i) == "(if b do " \o Num(i) \o " else 0 end)"
+Rest(n, F(_)) == Join([i \in 1..(n - 1) |-> F(i + 1)], ", ")        \* items 2..n
+WideK(n) == <<"k :: fn " \o Seq1(n, PInt) \o " -> int do", "    p1", "end">>
+WideH == <<"h :: fn q: int -> int do", "    q", "end">>
+WideKinds == <<"call-global", "call-stmt", "call-arrow", "call-prime", "call-closure", "call-method", "call-fn-param",
+               "call-iife", "call-external", "call-var-args", "call-call-args", "call-str-args", "call-if-args",
+               "call-nested", "call-in-loop", "list", "list-vars", "list-of-lists", "list-of-calls", "tuple", "set", "dict",
+               "blob-literal", "variant-tuple", "lambda-params", "fn-type">>
+WideText(kd, n) ==
+  CASE kd = "call-global" -> Prog(WideK(n), <<"print(k(" \o Seq1(n, Num) \o "))">>)
+    [] kd = "call-stmt" -> Prog(<<"kv :: fn " \o Seq1(n, PInt) \o " do", "    print(p1)", "end">>, <<"kv(" \o Seq1(n, Num) \o ")", "print(0)">>)
+    [] kd = "call-arrow" -> Prog(WideK(n), <<"print(1 -> k(" \o Rest(n, Num) \o "))">>)
+    [] kd = "call-prime" -> Prog(WideK(n), <<"y := k' " \o Seq1(n, Num), "print(y)">>)
+    [] kd = "call-closure" -> Prog(<<>>, <<"c := 1", "kc :: fn " \o Seq1(n, PInt) \o " -> int do", "    p1 + c", "end",
+                                           "print(kc(" \o Seq1(n, Num) \o "))">>)
+    [] kd = "call-method" -> Prog(<<"A :: blob { m: fn " \o Seq1(n, TInt) \o " -> int }">>,
+                                  <<"a := A { m: fn " \o Seq1(n, PInt) \o " -> int do p1 end }", "print(a.m(" \o Seq1(n, Num) \o "))">>)
+    [] kd = "call-fn-param" -> Prog(WideK(n) \o <<"ap :: fn g: fn " \o Seq1(n, TInt) \o " -> int -> int do",
+                                                  "    g(" \o Seq1(n, Num) \o ")", "end">>, <<"print(ap(k))">>)
+    [] kd = "call-iife" -> Prog(<<>>, <<"print((fn " \o Seq1(n, PInt) \o " -> int do p1 end)(" \o Seq1(n, Num) \o "))">>)
+    [] kd = "call-external" -> Prog(<<"ext : fn " \o Seq1(n, TInt) \o " -> void : external">>, <<"ext(" \o Seq1(n, Num) \o ")">>)
+    [] kd = "call-var-args" -> Prog(WideK(n), <<"x := 1", "print(k(" \o Seq1(n, ArgVar) \o "))">>)
+    [] kd = "call-call-args" -> Prog(WideK(n) \o WideH, <<"print(k(" \o Seq1(n, ArgCall) \o "))">>)
+    [] kd = "call-str-args" -> Prog(<<"ks :: fn " \o Seq1(n, PStr) \o " -> str do", "    p1", "end">>, <<"print(ks(" \o Seq1(n, ArgStr) \o "))">>)
+    [] kd = "call-if-args" -> Prog(WideK(n), <<"b := true", "print(k(" \o Seq1(n, ArgIf) \o "))">>)
+    [] kd = "call-nested" -> Prog(WideK(n), <<"print(k(k(" \o Seq1(n, Num) \o ")" \o (IF n = 1 THEN "" ELSE ", " \o Rest(n, Num)) \o "))">>)
+    [] kd = "call-in-loop" -> Prog(WideK(n), <<"x := 0", "loop x < 2 do", "    x += k(" \o Seq1(n, Num) \o ")", "end", "print(x)">>)
+    [] kd = "list" -> Prog(<<>>, <<"l := [" \o Seq1(n, Num) \o "]", "print(l)">>)
+    [] kd = "list-vars" -> Prog(<<>>, <<"x := 1", "print([" \o Seq1(n, ArgVar) \o "])">>)
+    [] kd = "list-of-lists" -> Prog(<<>>, <<"print([" \o Seq1(n, ArgList) \o "])">>)
+    [] kd = "list-of-calls" -> Prog(WideH, <<"print([" \o Seq1(n, ArgCall) \o "])">>)
+    [] kd = "tuple" -> Prog(<<>>, <<"t := (" \o Seq1(n, Num) \o (IF n = 1 THEN ",)" ELSE ")"), "print(t)">>)
+    [] kd = "set" -> Prog(<<>>, <<"s := set.from_list' [" \o Seq1(n, Num) \o "]", "print(s)">>)
+    [] kd = "dict" -> Prog(<<>>, <<"d := dict.from_list' [" \o Seq1(n, ArgPair) \o "]", "print(d)">>)
+    [] kd = "blob-literal" -> Prog(<<"B :: blob { " \o Seq1(n, LAMBDA i : "f" \o Num(i) \o ": int") \o " }">>,
+                                   <<"a := B { " \o Seq1(n, ArgField) \o " }", "print(a.f1)">>)
+    [] kd = "variant-tuple" -> Prog(<<"V :: enum", "    T (" \o Seq1(n, TInt) \o (IF n = 1 THEN ",)," ELSE "),"), "end">>,
+                                    <<"print(V.T (" \o Seq1(n, Num) \o (IF n = 1 THEN ",))" ELSE "))")>>)
+    [] kd = "lambda-params" -> Prog(<<"ap :: fn g: fn " \o Seq1(n, TInt) \o " -> int -> int do", "    g(" \o Seq1(n, Num) \o ")", "end">>,
+                                    <<"print(ap(fn " \o Seq1(n, PInt) \o " -> int do p1 end))">>)
+    [] kd = "fn-type" -> Prog(<<>>, <<"g: fn " \o Seq1(n, TInt) \o " -> int = fn " \o Seq1(n, PInt) \o " -> int do p1 end",
+                                      "print(g(" \o Seq1(n, Num) \o "))">>)
+WideCase(kd, n) == MkCase("wide", kd, "n" \o Num(n), n, Main(WideText(kd, n)), "", TRUE)
+
+---------------------------------------------------------------------------
+\* The universe as a sequence of SEGMENTS [seg, n]; case i is the (i - offset)-th case of the segment it falls into.
+\* The quick universe is a PREFIX of the thorough one: an index means the same case in both tiers.
+QuickSegs == <<[seg |-> "name", n |-> GridN(LowerSpell, LowerSites)], [seg |-> "cname", n |-> GridN(UpperSpell, UpperSites)],
+               [seg |-> "str", n |-> GridN(StrContents, StrSites)], [seg |-> "num", n |-> GridN(NumLits, NumSites)],
+               [seg |-> "unused", n |-> GridN(UForms, UPositions)], [seg |-> "size", n |-> Len(SizeCells)],
+               [seg |-> "ctl", n |-> GridN(CtlKinds, CtlPositions)], [seg |-> "ctlfn", n |-> Len(CfCells)],
+               [seg |-> "dead", n |-> Len(DeadCells)],
+               [seg |-> "ctlx", n |-> Len(CxCells)], [seg |-> "strc", n |-> Len(ScCells)], [seg |-> "wide", n |-> GridN(WideKinds, WideNs)]>>
+RestSegs == <<[seg |-> "dead-rest", n |-> Len(DeadRestCells)], [seg |-> "unused2", n |-> GridN(UOperands, UOperands)],
+              [seg |-> "ctlx-rest", n |-> Len(CxRestCells)], [seg |-> "strc-rest", n |-> Len(ScRestCells)]>>
+Segs == IF Thorough THEN QuickSegs \o RestSegs ELSE QuickSegs
+RECURSIVE SumN(_, _)
+SumN(sg, i) == IF i = 0 THEN 0 ELSE sg[i].n + SumN(sg, i - 1)
+NCases == SumN(Segs, Len(Segs))
+SegCase(seg, jj) ==
+  CASE seg = "name" -> GridAt(LowerSpell, LowerSites, NameCase, jj)
+    [] seg = "cname" -> GridAt(UpperSpell, UpperSites, CNameCase, jj)
+    [] seg = "str" -> GridAt(StrContents, StrSites, StrCase, jj)
+    [] seg = "num" -> GridAt(NumLits, NumSites, NumCase, jj)
+    [] seg = "unused" -> GridAt(UForms, UPositions, UCase, jj)
+    [] seg = "size" -> SizeCase(SizeCells[jj])
+    [] seg = "ctl" -> GridAt(CtlKinds, CtlPositions, CtlCase, jj)
+    [] seg = "ctlfn" -> CfCase(CfCells[jj])
+    [] seg = "dead" -> DeadCase(DeadCells[jj])
+    [] seg = "ctlx" -> CxCase(CxCells[jj])
+    [] seg = "strc" -> ScCase(ScCells[jj])
+    [] seg = "wide" -> GridAt(WideKinds, WideNs, WideCase, jj)
+    [] seg = "dead-rest" -> DeadCase(DeadRestCells[jj])
+    [] seg = "unused2" -> GridAt(UOperands, UOperands, U2Case, jj)
+    [] seg = "ctlx-rest" -> CxCase(CxRestCells[jj])
+    [] seg = "strc-rest" -> ScCase(ScRestCells[jj])
+\* first index of every segment minus one; the segment an index falls into (no recursion over a lazily evaluated
+\* remainder: TLC re-evaluates operator arguments at every use when it evaluates an initial-state predicate)
+SegStart == [sx \in 1..Len(Segs) |-> SumN(Segs, sx - 1)]
+SegOf(i) == CHOOSE sx \in 1..Len(Segs) : SegStart[sx] < i /\ i <= SegStart[sx] + Segs[sx].n
+\* case i of the universe, derived on demand (i \in 1..NCases)
+CaseAt(i) == LET sx == SegOf(i) IN SegCase(Segs[sx].seg, i - SegStart[sx])
+Families == IF Thorough THEN <<"name", "cname", "str", "num", "unused", "size", "ctl", "ctlfn", "dead", "ctlx", "strc", "wide", "unused2">>
+            ELSE <<"name", "cname", "str", "num", "unused", "size", "ctl", "ctlfn", "dead", "ctlx", "strc", "wide">>
 =============================================================================
